@@ -32,6 +32,7 @@ UNIVERSES = {
     "strings": [{"s": "x y"}, {"s": "x.y"}, {"s": "x_y"}, {"s": "xy"}],
     "floats": [{"f": 0.5}, {"f": 1.5}, {"f": 2.0}, {"f": 2}],
     "two-keys": [{"a": 1, "b": 1}, {"a": 1, "b": 2}, {"a": 2, "b": 1}, {"a": 2, "b": 2}],
+    "empty-sp": [{}, {"a": 1}, {"a": 2}],
 }
 TARGETS = ["dir", ".zip", ".tar", ".tar.gz", ".tar.bz2", ".tar.xz"]
 PATHSPECS = ["none", "false", "fmt:a_{a}", "fmt:{{auto}}", "fmt:x/{{auto:_}}", "fmt:{a}/{{auto}}", "fmt:{job.id}",
@@ -172,8 +173,8 @@ def evaluate(item):
             # import into an empty project (or one that already holds a job, mode == 'existing')
             Q = signac.init_project(qp)
             pre_existing = None
-            if mode == "existing" and sps:
-                ej = Q.open_job(sps[0]).init()
+            if mode in ("existing", "existing-last") and sps:
+                ej = Q.open_job(sps[0] if mode == "existing" else sps[-1]).init()
                 with open(ej.fn("mine.txt"), "w") as f:
                     f.write("do not touch")
                 pre_existing = canon.snapshot(ej.path)
@@ -192,12 +193,19 @@ def evaluate(item):
             if stray:
                 bad("import-writes-outside-job-directories", f"import changed {stray[:5]}", target=tkind)
             if pre_existing is not None:
-                ej_now = canon.snapshot(os.path.join(qp, "workspace", canon.job_id(sps[0])))
+                ej_id = canon.job_id(sps[0] if mode == "existing" else sps[-1])
+                ej_now = canon.snapshot(os.path.join(qp, "workspace", ej_id))
                 if ej_now != pre_existing:
                     bad("import-overwrites-existing-job", f"the pre-existing job changed: {canon.snap_diff(pre_existing, ej_now)[:4]}",
                         target=tkind)
                 if imp_exc is None or not isinstance(imp_exc, DestinationExistsError):
                     bad("existing-job-not-reported", f"import over an existing job ended with {outcome}", target=tkind)
+                elif tkind != "dir":
+                    # archives are analysed completely before anything is copied: a refused import copies nothing
+                    others = [d for d in diffs if d[0].startswith("Q/workspace/") and not d[0].startswith(f"Q/workspace/{ej_id}")]
+                    if others:
+                        bad("refused-archive-import-copied-jobs", f"import raised DestinationExistsError but had already copied "
+                            f"{sorted({d[0].split('/')[2] for d in others})}", target=tkind)
             elif imp_exc is not None:
                 if [d for d in diffs if d[0].startswith("Q/workspace/")]:
                     bad("failed-import-changed-project", f"import raised {type(imp_exc).__name__}: {imp_exc} after copying "
@@ -337,6 +345,9 @@ def universe(tier):
             if idxs:
                 yield ("rt", uni, idxs, tkind, "none", "sorted", "existing")
                 yield ("rt", uni, idxs, tkind, "false", "sorted", "existing")
+                if len(idxs) > 1:
+                    yield ("rt", uni, idxs, tkind, "false", "sorted", "existing-last")
+                    yield ("rt", uni, idxs, tkind, "none", "reversed", "existing-last")
     yield ("schema", "int", [1, 10, 100, -5, 0])
     yield ("schema", "float", [0.5, 1.5, 10.25, -2.0])
     yield ("schema", "str", ["abc", "x_y", "A1"])
